@@ -11,7 +11,21 @@ sys.path.insert(0, "/repo")
 import core
 
 
+def source_changed(pid):
+    """anchor files of the property whose AST differs from the committed fingerprint (never an alarm: only a deeper search)"""
+    try:
+        sys.path.insert(0, os.path.join(core.VERIF, "tools"))
+        import fingerprint
+        base = json.load(open(os.path.join(core.VERIF, "fingerprints.json"))).get(pid, {})
+        cur = fingerprint.current().get(pid, {})
+        return sorted(f for f in cur if base.get(f) != cur[f])
+    except Exception:
+        return []
+
+
 class Ctx:
+    boost = 1
+
     def __init__(self, pid, tier, seed, widen=False):
         self.pid, self.tier, self.seed, self.widen = pid, tier, seed, widen
         self.rng = random.Random("%s-%s-%s" % (pid, seed, "w" if widen else "n"))
@@ -20,7 +34,7 @@ class Ctx:
         self.findings = [f for f in core.load_findings().get("findings", []) if f["property"] == pid]
 
     def scale(self, quick, thorough):
-        n = thorough if self.thorough else quick
+        n = thorough if self.thorough else quick * self.boost
         return n * 5 if self.widen else n
 
 
@@ -69,6 +83,9 @@ def main():
         A["ok"] = False
 
     mod = importlib.import_module("adapters." + pid.lower())
+    changed = source_changed(pid)
+    if changed and tier == "quick":
+        Ctx.boost = 4          # the code this property is anchored in changed since the fingerprints were taken: search deeper
     ctx = Ctx(pid, tier, seed)
     if a.replay:
         case = json.load(open(a.replay))
@@ -119,7 +136,8 @@ def main():
         else:
             print("note: listed finding %s no longer reproduces (%s)" % (fid, text))
     core.write_evidence(pid, tier, seed, time.time() - t0, A, res, len(viol) if viol else (1 if status else 0),
-                        extra_assumptions=["tables used by the driver: " + tables_used])
+                        extra_assumptions=["tables used by the driver: " + tables_used] +
+                        (["anchor files changed since the committed fingerprints (%s): quick-tier sample sizes x4 on this run" % ", ".join(changed)] if changed else []))
     print("%s %s tier=%s seed=%s: theorems %d/%d, cases %d (distinct non-trivial %d), tie disagreements %d, violations %d, %.1fs"
           % (pid, "OK" if status == 0 else "FAILED", tier, seed, A.get("discharged", 0), A.get("obligations", 0),
              res.evaluations, len(res.nontrivial), len(ties), len(viol) if viol else 0, time.time() - t0))
